@@ -74,8 +74,20 @@ let app_ok _ _ = true
 let wpad sched ser = sched @ [Short (z_of_int (List.length ser + 1))]
 let rpad sched data = sched @ List.init (List.length data / 4096 + 2) (fun _ -> Short (z_of_int 4096))
 
-let run line =
+(* the descriptor number of the line ("@<n>" prefix, default 77): what open() returns when it
+   succeeds; the caller-provided descriptors take it too, where nothing depends on it *)
+let fdnum = ref (z_of_int 77)
+
+let rec run line =
   match split_on ' ' line with
+  | at :: rest when String.length at > 1 && at.[0] = '@' ->
+    fdnum := z_of_string (String.sub at 1 (String.length at - 1));
+    let r = run_op rest in
+    fdnum := z_of_int 77; r
+  | toks -> run_op toks
+
+and run_op toks =
+  match toks with
   | ["W"; tree; _flags; sc; serhex] ->
     let ser = bytes_of_hex serhex in
     let r = object_to_fd (wpad (parse_sched sc) ser) (tree = "n") (Some ser) in
@@ -89,13 +101,15 @@ let run line =
     Printf.sprintf "R %s %s" f live
   | ["F"; "R"; op; hex; sc] ->
     let data = bytes_of_hex hex in
-    let ((r, opens), closes) = object_from_file (op = "1") stand_in app_ok (rpad (parse_sched sc) data) data in
+    let ret = if op = "1" then !fdnum else z_of_int (-1) in
+    let ((r, opens), closed) = object_from_file_ret ret stand_in app_ok (rpad (parse_sched sc) data) data in
     let (f, live) = rfields r in
-    Printf.sprintf "FR %s %s %s %s" f (string_of_z opens) (string_of_z closes) live
+    Printf.sprintf "FR %s %s %d %s" f (string_of_z opens) (List.length closed) live
   | ["F"; ("W" | "w"); op; tree; _flags; sc; serhex] ->
     let ser = bytes_of_hex serhex in
-    let ((r, opens), closes) = object_to_file_ext (op = "1") (wpad (parse_sched sc) ser) (tree = "n") (Some ser) in
-    Printf.sprintf "FW %s %s %s 0" (wfields r ser) (string_of_z opens) (string_of_z closes)
+    let ret = if op = "1" then !fdnum else z_of_int (-1) in
+    let ((r, opens), closed) = object_to_file_ext_ret ret (wpad (parse_sched sc) ser) (tree = "n") (Some ser) in
+    Printf.sprintf "FW %s %s %d 0" (wfields r ser) (string_of_z opens) (List.length closed)
   | ["P"; init; steps] ->
     let name c = [z_of_int (Char.code c)] in
     let fs0 : fsys =
